@@ -110,7 +110,10 @@ class OggVCommentDict(VCommentDict):
             if page.serial == info.serial:
                 pages.append(page)
                 complete = page.complete or (len(page.packets) > 1)
-        data = OggPage.to_packets(pages)[0][7:]  # Strip off "\x03vorbis".
+        packets = OggPage.to_packets(pages)
+        if not packets:
+            raise error("Missing metadata packet")
+        data = packets[0][7:]  # Strip off "\x03vorbis".
         super(OggVCommentDict, self).__init__(data)
         self._padding = len(data) - self._size
 
